@@ -31,8 +31,8 @@ sub-agent that saw only the property text and a scratch worktree, each confirmed
 change; the 3499 stable passes unchanged) before it was kept. **All are reported as VIOLATION by the quick check named in
 their meta.json, with a concrete failing input** (`harness/seed_matrix.sh`). The last column says which part of the check
 catches the change and, where the FIRST version of the check missed it or could only report a broken obligation without a
-failing input, what was strengthened: round 1 — C05, C06, C10 (by C01), C20, C21, C03; round 2 — C15b and C25b (missed),
-C03b (missed by C03, caught by C15), C14b and C08b (no failing input at first).
+failing input, what was strengthened: round 1 — C05, C06, C10 (by C01), C20, C21, C03; round 2 — C15b, C25b, C10b and C06b (missed),
+C03b (missed by C03, caught by C15), C14b and C08b (no failing input at first), C26b (the check hung).
 
 | id | change | needs | caught by |
 |---|---|---|---|
